@@ -253,6 +253,8 @@ struct Run<'a> {
     reenabled_after_cross: bool,
     snapshot_levels: Vec<(bool, u32)>,
     partially_filled: Vec<bool>,
+    /// (step, id, bid, price) of the last effective re-queuing modification that rested without trading
+    last_requeue: Option<(usize, usize, bool, u32)>,
     pub feat: Features,
 }
 
@@ -331,6 +333,7 @@ pub fn run_book_case(case: &BookCase, orc: Oracles) -> (Features, Result<(), Fai
         reenabled_after_cross: false,
         snapshot_levels: vec![],
         partially_filled: vec![],
+        last_requeue: None,
         feat: Features::default(),
     };
     let r = run.go();
@@ -362,6 +365,7 @@ pub fn build_book(case: &BookCase) -> Box<dyn DynBook> {
         reenabled_after_cross: false,
         snapshot_levels: vec![],
         partially_filled: vec![],
+        last_requeue: None,
         feat: Features::default(),
     };
     let _ = run.go();
@@ -404,6 +408,21 @@ impl<'a> Run<'a> {
             }
             let post = self.step(step, &op, &pre, total - step, is_drain)?;
             pre = post;
+        }
+        // C06, model-free: an order re-entered by the LAST operation of the history (no later op
+        // touched the queue) must be executed by the drain after every other order of its price level
+        if self.orc.modify && self.case.drain && n_core > 0 {
+            if let Some((st, id, bid, price)) = self.last_requeue {
+                if st == n_core - 1 {
+                    // the fills logged by the drain orders (trader 0xD8A1) at that level, in execution order
+                    let drained: Vec<usize> = pre.trades.iter().rev().take_while(|t| pre.orders.get(t.active).map_or(false, |o| o.trader == 0xD8A1)).filter(|t| t.bid == bid && t.price == price).map(|t| t.passive).collect::<Vec<_>>().into_iter().rev().collect();
+                    if let Some(pos) = drained.iter().position(|x| *x == id) {
+                        if pos + 1 != drained.len() {
+                            return Err(Failure::new("C06", "C06 re-entered order does not queue behind the orders already at its price", format!("order {} re-entered at price {} by the last operation; the drain executed the level in the order {:?}", id, price, drained)));
+                        }
+                    }
+                }
+            }
         }
         Ok(())
     }
@@ -1170,6 +1189,9 @@ impl<'a> Run<'a> {
             }
             if b.vol as u64 + traded != nv {
                 return f(self, "C06 re-entered order does not carry the new volume", format!("{:?} -> {:?}, traded {}", a, b, traded));
+            }
+            if b.status == St::Active && traded == 0 {
+                self.last_requeue = Some((step, id, b.bid, b.price));
             }
             if self.trading && b.status == St::Active {
                 // must not rest crossed against the opposite touch
